@@ -48,14 +48,20 @@ TECHNIQUE = (
     "specifications + an independent brute-force oracle (bijectivity on the objects, symmetry, reflexivity)"
 )
 LEVEL_TEXT = (
-    "Theorems of coq/theories/Props/C12.v (22, all closed under the global context). The model of the search takes a "
+    "Theorems of coq/theories/Props/C12.v (28, all closed under the global context). The model of the search takes a "
     "flag `exact` for the recursive-match test: true = /repo as it is since fix 91c1aef (_ancestors holds only the pair of "
     "current classes), false = the code before that fix (_ancestors held product(eq_path1, eq_path2); historic, run by no "
     "case); the harness detects which one the code under test implements (today: exact = true) and runs the model with "
     "it; every theorem mentioning `exact` is proved for both. For ALL "
     "pairs of specifications (finite maps class -> rule descriptor; wf_spec where stated: an equivalence rule has one, "
     "non-empty, child and equivalence chains end; products have no empty factor; roots not empty - decided on every "
-    "specification of every run), all objects given as parse trees of any size: C12_perm_inv (_perm_inv of a "
+    "specification of every run), all objects given as WELL-FORMED PARSE TREES of any size - wf_tree has node formers "
+    "for atoms, equivalence steps, unions (constructor tag 0) and products (tag 1) ONLY: a class whose rule is a "
+    "Complement / Quotient (the reverse of a non-equivalence rule) or a user constructor has no well-formed tree and the "
+    "tree theorems say nothing about objects passing through it (C12_scope, C12_nonequiv_reverse_no_tree); since fix "
+    "25bcc90 Bijection.construct returns None over such a specification, modelled and characterised by C12_construct "
+    "(a Bijection exactly when the test answers True and neither descriptor holds a non-equivalence Complement/Quotient "
+    "rule): C12_perm_inv (_perm_inv of a "
     "permutation is its inverse - about the definition regenerated from the source); C12_transport_inverse (for ANY "
     "order map that is a valid certificate: map sends the well-formed parse trees of the first root onto those of the "
     "second, preserves size, inverse_map(map t) = t and map(inverse_map u) = u); C12_iso_cert (whenever the search with "
@@ -71,9 +77,23 @@ LEVEL_TEXT = (
     "equivalence rules), C12_symmetric_refuted (exact = false, i.e. the code BEFORE 91c1aef: two well-formed specifications with check True "
     "one way and False the other - the finding fixed by 91c1aef, findings/C12_asymmetric_check.py; a witness of the old "
     "code only); "
-    "REFLEXIVITY: C12_reflexive_atoms, C12_reflexive_never_false, C12_check_reflexive (no fuel); "
+    "REFLEXIVITY: C12_reflexive_atoms, C12_check_reflexive (no fuel) - under eq_wf, every rule with children is a Rule "
+    "with a non-empty child, closed on non-empty children, the root has a rule, childless rules are atoms; "
+    "C12_reflexive_never_false (two of these hypotheses); "
     "C12_check_true_bijection (no fuel: when check answers True the bijection constructed from the terminating run is "
-    "a size-preserving bijection with a true inverse)."
+    "a size-preserving bijection with a true inverse). "
+    "OBJECTS (Iso/ParseTreesIso.v + the development Count/ParseTrees*.v shared with C07 and C08): per specification the "
+    "objects come in C07's vocabulary (rules with forward/backward maps, atoms, the bijection contracts node_ok, closed, "
+    "productivity certificate) and `idescribes` says that the descriptor read by isomorphism.py and that specification "
+    "describe the same rules. C12_parse_trees_coincide: wf_tree and the well-formed trees of C07/C08 coincide through "
+    "`emb` in both directions, with the same object (iunparse = backward maps applied bottom-up to the tuples, as "
+    "ParseTreeMap.map_rec does) and the same size. C12_transport_inverse_objects (any valid certificate, e.g. a reloaded "
+    "order map that passed check_cert) and C12_constructed_bijection_objects (construct returned a Bijection): "
+    "Bijection.map on OBJECTS = parse in the first specification (forward maps), the tree transport, unparse in the second "
+    "(backward maps) is a size-preserving bijection from the objects of the first root ONTO the objects of the second "
+    "with inverse_map as inverse in both directions. Examples: exA/exB with the words a^k as objects meet every "
+    "hypothesis; the model maps 'aa' to 'aa' and back; a specification with a Complement rule is isomorphic to itself "
+    "but construct refuses."
 )
 LEVEL_NOTE = (
     "FIXED FINDING (known_findings.json asymmetric-check-with-chained-equivalences, kind fixed, commit 91c1aef): before that "
@@ -85,12 +105,18 @@ LEVEL_NOTE = (
     "answers only for exact_mode() = 0 and core masks only `open` entries), so ANY asymmetry is reported. "
     "C12_symmetric_partial, C12_symmetric_flat and the exact = false half of the 'for both' theorems are kept as statements "
     "about the old code: for exact = false on chained specifications only the certificate-level symmetry holds. The fuel-free statements still quantify the parse-tree maps over 'every fuel above some bound' (the bound "
-    "exists for every tree; it is not computed). Objects are modelled by parse trees: that objects of a class and "
-    "well-formed parse trees correspond one to one is the strategies' forward/backward-map contract (C07), checked per "
-    "case by brute force (map compared object by object with the model's tree map through forward_map / backward_map). "
+    "exists for every tree; it is not computed). Objects: the theorems *_objects reduce 'objects <-> well-formed parse "
+    "trees one to one' to the strategies' forward/backward-map contracts (C07_objects_are_parse_trees; user-code "
+    "hypotheses, for derived forms theorems C07_equivalence_contract / C07_path_contract) and `idescribes` (descriptor = "
+    "specification: a per-instance fact, the descriptor is computed by the harness, the C07 descriptor by c07.py - the two "
+    "are not built from one another in any run). The extracted model still maps TREES: obj_map / iunparse / emb are not "
+    "run against the code; per case the model's tree map is compared with the trees of bij.map(o) / bij.inverse_map(o) on "
+    "<= 36 objects per direction (Desc.tree = iparse), parse/unparse themselves by the C07 check, and the full brute-force "
+    "bijectivity on all objects of sizes <= nmax is the oracle's (independent of the model). The descriptor reading of "
+    "construct's guard (non-equivalence Rule with tag 2/3) is compared with the code's own test on every case. "
     "Outside the model: NonBijectiveRule / index data (no constructor of the library returns data), _path_tracker "
-    "(never read), specifications with non-equivalence reverse rules (their forward_map raises NotImplementedError: the "
-    "object part is skipped and counted, found-or-not and the checker still compared). False NEGATIVES of the test (e.g. "
+    "(never read), specifications with non-equivalence reverse rules (no bijection is constructed over them since "
+    "25bcc90; a constructed bijection whose map raises NotImplementedError is an oracle failure). False NEGATIVES of the test (e.g. "
     "uncollapsed equivalence chains of different parity, non-atom verified classes) are symmetric, not claimed by the "
     "property and not reported. Modelled not verified: isomorphism.py, Constructor.equiv / extra_params_equiv - tied by "
     "the correspondence; a change of check's answers that keeps every returned bijection correct (e.g. equiv ignoring "
@@ -109,10 +135,12 @@ TRUSTED = [
     "/repo/example.py)",
 ]
 ASSUMPTIONS = [
-    "wf_spec for both specifications (decided per specification by the harness; a failure is counted under "
-    "'hypothesis-fails' in the input distribution: none occurs in the shipped universes)",
+    "wf_spec for both specifications (decided per specification by the harness; a failure only tags the case "
+    "'hypothesis-fails:*' in the input distribution - nothing fails on it, the case is then covered by the oracle alone)",
+    "*_objects: node_ok / closed / rank certificate of C07_objects_are_parse_trees for both specifications, idescribes "
+    "(labels are >= 0; atoms' sizes; same children; every other class has no well-formed tree), the roots have rules",
     "strategies honour the bijection contract of forward_map / backward_map and is_empty / is_atom are exact "
-    "(checked by brute force through the oracle on every case)",
+    "(indirectly, through the oracle's bijectivity check on the objects of sizes <= nmax of every case with a bijection)",
     "rules are plain Rule / EquivalenceRule / EquivalencePathRule / ReverseRule-of-equivalence / VerificationRule "
     "(no NonBijectiveRule); atoms have exactly one object",
 ]
@@ -892,6 +920,13 @@ def impl(case):
         tags.append("json")
     intern = {}
     d1, d2 = Desc(s1, intern), Desc(s2, intern)
+    # descriptor guard (Iso/Construct.v nonequiv_reverse, C12_construct): the reverse of a non-equivalence rule
+    # reads on the descriptor as a Rule that is not an equivalence with a Complement (2) / Quotient (3)
+    # constructor; this reading must agree with the test Bijection.construct itself performs
+    desc_blocked = any(r[1] and not r[3] and r[4][0] in (2, 3) for d in (d1, d2) for r in d.rules)
+    if desc_blocked != bool(blocked) and not case.get("json"):
+        why.append("descriptor guard: a non-equivalence Complement/Quotient rule is %s in the descriptors but "
+                   "Bijection.construct's own test says %s" % ("present" if desc_blocked else "absent", bool(blocked)))
     for d, nm in ((d1, "spec1"), (d2, "spec2")):
         if d.verified_all_atoms():
             r = chk(d.spec, d.spec)
